@@ -1,0 +1,19 @@
+//go:build !windows && verif
+
+package daemon
+
+import (
+	"os"
+	"strconv"
+	"time"
+)
+
+// verifPause delays the launcher right after it has started the daemon, for as
+// many milliseconds as VERIF_DAEMON_LAUNCH_PAUSE_MS says (unset: no delay). Only
+// compiled with the "verif" build tag; it lets the verification harness choose
+// the schedule in which the daemon calls Done() before the launcher waits for it.
+func verifPause() {
+	if ms, err := strconv.Atoi(os.Getenv("VERIF_DAEMON_LAUNCH_PAUSE_MS")); err == nil && ms > 0 {
+		time.Sleep(time.Duration(ms) * time.Millisecond)
+	}
+}
